@@ -128,7 +128,9 @@ func oracleC06() *Result {
 		nmut = 20
 	}
 	var tasks []Task
-	add := func(b []byte, tag string) { tasks = append(tasks, Task{Oracle: "C06", Cfg: versions, Src: b, Tag: tag}) }
+	add := func(b []byte, tag string) {
+		tasks = append(tasks, Task{Oracle: "C06", Cfg: versions, Src: b, Tag: tag})
+	}
 	for _, c := range regressionInputs("C06") {
 		add(c, "regression")
 	}
